@@ -9,8 +9,9 @@ use crate::types::*;
 
 pub const NAME_POOL: &[&str] = &[
     "a", "ab", "a.b", "a.", "b.txt", ".h", "...", "..a", "ü", "日本", "€x", "A", "a b", "x", "c", "d1", "Ab", "b", "..\\outside.txt", "a\\b", "b_wo.c", ".whiteouts",
-    // a component close to the 255-byte limit of most filesystems (legal everywhere)
-    "LLLLLLLLLLLLLLLLLLLLLLLLLLLLLLLLLLLLLLLLLLLLLLLLLLLLLLLLLLLLLLLLLLLLLLLLLLLLLLLLLLLLLLLLLLLLLLLLLLLLLLLLLLLLLLLLLLLLLLLLLLLLLLLLLLLLLLLLLLLLLLLLLLLLLLLLLLLLLLLLLLLLLLLLLLLLLLLLLLLLLLLLLLLLLLLLLLLLLLLLLLLLLLLLLLLLLLLLLLLLLLLLLLLLLLLLLLLLLLLLLLLLLL.ext",
+    // a long component (230 bytes): derived names (suffixes like _copy, the overlay's _wo markers)
+    // still fit into the 255 bytes most filesystems allow; C02 adds an exactly 255-byte name
+    "LLLLLLLLLLLLLLLLLLLLLLLLLLLLLLLLLLLLLLLLLLLLLLLLLLLLLLLLLLLLLLLLLLLLLLLLLLLLLLLLLLLLLLLLLLLLLLLLLLLLLLLLLLLLLLLLLLLLLLLLLLLLLLLLLLLLLLLLLLLLLLLLLLLLLLLLLLLLLLLLLLLLLLLLLLLLLLLLLLLLLLLLLLLLLLLLLLLLLLLLLLLLLLLLLLLLLLLLLLLLLLLLLL.ext",
 ];
 /// names reserved for the areas outside an altroot / inner namespaces (never in the caller's universe)
 pub const ALT_POOL: &[&str] = &["ALTROOT_p", "ALTROOT_q", "ALTROOT_r"];
